@@ -325,7 +325,7 @@ example : V4.fromStr "1.2.3.4/24x".toList = .error .addressValueError := by rfl
 
 /-- **IPv6 text forms, exploded spelling** (`xxxx:xxxx:…:xxxx/len`, `xxxx:…:xxxx<blanks>len`, surrounding
 blanks, ASCII digits with leading zeros for `len`): the constructor builds the object of `(ip, len)`.
-The guard `len(input) ≤ 43` is the one the code applies to the raw input (finding F32). -/
+The guard `len(input) ≤ 43` is the one the code applies to the raw input (finding F33). -/
 theorem v6_text_forms_exploded (ip len : Nat) (hip : ip < 2 ^ 128) (hlen : len ≤ 128)
     (digits : Str) (hne : digits ≠ []) (hd : ∀ c ∈ digits, isDigit c = true) (hv : ofDigits digits = some len)
     (input : Str) (hguard : input.length ≤ 43)
